@@ -385,7 +385,7 @@ func C06(p *engine.Prog, r *engine.Report) {
 			if retErrKind(ret) == "nonnil" {
 				continue
 			}
-			if !engine.OnlyThroughPass(vt, ret.Block(), g) {
+			if !engine.OnlyThroughPassRet(vt, ret, g) {
 				okAll = false
 			}
 		}
